@@ -72,7 +72,14 @@ func TestVF_C04_HandlerFetch(t *testing.T) {
 			hi := rapid.IntRange(0, nb-1).Draw(t, "holder")
 			o := ref[hi].base + int64(rapid.IntRange(0, int(ref[hi].last-ref[hi].base)).Draw(t, "within"))
 			m := int32(rapid.SampledFrom([]int{1, 60, 90, 200, 1000}).Draw(t, "maxbytes"))
-			fr, err := vfFetch(h, 11, "orders", 0, o, m)
+			// request-level limit (fetch.max.bytes): independent of the per-partition limit; a
+			// client may set it below max.partition.fetch.bytes (KIP-74: the first batch is
+			// returned anyway)
+			reqMax := rapid.SampledFrom([]int32{1 << 30, 1 << 30, 0, 1, 50, 512}).Draw(t, "reqmax")
+			if reqMax < m {
+				st.Class("request-limit-below-partition-limit")
+			}
+			fr, err := vfFetchMax(h, 11, "orders", 0, o, m, reqMax)
 			if err != nil {
 				t.Fatalf("fetch: %v", err)
 			}
